@@ -59,9 +59,11 @@ type NCSession struct {
 	WantSID     uint64     `json:"want_sid,omitempty"`
 	State       string     `json:"state,omitempty"`
 	Holds       []HoldSpec `json:"holds,omitempty"`
-	Recover     bool       `json:"recover,omitempty"`
-	BaseEmitted int        `json:"base_emitted,omitempty"`
-	BaseWrites  int        `json:"base_writes,omitempty"`
+	// Force (C07N): see Session.Force
+	Force       *kernel.ForceSpec `json:"force,omitempty"`
+	Recover     bool              `json:"recover,omitempty"`
+	BaseEmitted int               `json:"base_emitted,omitempty"`
+	BaseWrites  int               `json:"base_writes,omitempty"`
 	// CutEnum: this base scenario is followed by its cut enumeration (one sub-run per read boundary
 	// position from CutFrom to BaseEmitted)
 	CutEnum bool       `json:"cut_enum,omitempty"`
